@@ -75,37 +75,39 @@ Section Modes.
   Definition dash_c_frontend (h : list (str * opts)) (o : opts) (text : str) (st : St) : St :=
     on_exit (fst (run_parsed (parse_string h o text) text 0 st)).
 
-  (** The [eval] builtin: [run_string] in the current frame; control flow passes through.
-      Positions are read relative to the frame's own base (brush does not add the line of the
-      `eval` word; see the known finding on eval line numbers). *)
-  Definition eval_builtin (h : list (str * opts)) (o : opts) (text : str) (base : nat) (st : St) : St * flow :=
-    run_parsed (parse_string h o text) text base st.
+  (** The [eval] builtin (brush-builtins/src/eval.rs after fix e4871cd): [run_string] in the
+      current frame; control flow passes through.  While the string runs the frame's line offset is
+      raised by the line [L] of the `eval` command within its source minus one
+      ([pos.line.saturating_sub(1)]), and lowered again afterwards, so positions inside the
+      eval'ed text count from the line of the `eval` command. *)
+  Definition eval_line_delta (L : nat) : nat := L - 1.
+  Definition eval_builtin (h : list (str * opts)) (o : opts) (text : str) (base L : nat) (st : St) : St * flow :=
+    run_parsed (parse_string h o text) text (base + eval_line_delta L) st.
 
   (** The [.]/[source] builtin: plain parse of the file, own frame with base 0, `return` consumed. *)
   Definition dot_builtin (o : opts) (text : str) (st : St) : St * flow :=
     let '(st', fl) := run_parsed (parse o text) text 0 st in
     (st', match fl with FReturn => FNormal | _ => fl end).
 
-  (** bash reads positions inside eval'ed text relative to the line [L] of the `eval` word. *)
+  (** Specification (bash): line [j] of the eval'ed text reports the absolute line of the `eval`
+      word ([base + L]) plus [j - 1], i.e. the text is read at base "absolute line of eval, minus one". *)
   Definition eval_builtin_bash (h : list (str * opts)) (o : opts) (text : str) (base L : nat) (st : St) : St * flow :=
-    run_parsed (parse_string h o text) text (base + (L - 1)) st.
+    run_parsed (parse_string h o text) text (Nat.pred (base + L)) st.
 
-  (** Full statement (refuted for the model of the unchanged code, see [Example.eval_lineno_refuted]
-      and the known finding KF-C15-eval-lineno-base): *)
   Definition eval_lineno_stmt : Prop :=
-    forall h o text base L st, eval_builtin h o text base st = eval_builtin_bash h o text base L st.
+    forall h o text base L st, (1 <= L)%nat ->
+    eval_builtin h o text base L st = eval_builtin_bash h o text base L st.
 
-  (** Outside the known class ([L > 1]): an `eval` on the first line agrees with bash's rule. *)
-  Lemma eval_lineno_outside_known : forall h o text base L st, ~ (1 < L)%nat ->
-    eval_builtin h o text base st = eval_builtin_bash h o text base L st.
+  (** Holds since fix e4871cd (finding KF-C15-eval-lineno-base, fixed): for every line [L >= 1]. *)
+  Lemma eval_lineno : eval_lineno_stmt.
   Proof.
-    intros h o text base L st HL. unfold eval_builtin, eval_builtin_bash.
-    replace (base + (L - 1))%nat with base by lia. reflexivity.
+    intros h o text base L st HL. unfold eval_builtin, eval_builtin_bash, eval_line_delta.
+    replace (base + (L - 1))%nat with (Nat.pred (base + L)) by lia. reflexivity.
   Qed.
 
   (** Delivery through a one-command wrapper ( -c 'eval "$text"' ,  -c '. file' ). *)
   Definition eval_delivery (h : list (str * opts)) (o : opts) (text : str) (st : St) : St :=
-    on_exit (fst (eval_builtin h o text 0 st)).
+    on_exit (fst (eval_builtin h o text 0 1 st)).
   Definition source_delivery (o : opts) (text : str) (st : St) : St :=
     on_exit (fst (dot_builtin o text st)).
 
@@ -303,7 +305,8 @@ Section Modes.
     stdin_frontend h o lines st = r.
   Proof.
     intros o lines st h Hl Hall Hfl text r. subst r text.
-    unfold dash_c_frontend, eval_delivery, eval_builtin, source_delivery, dot_builtin, script_frontend.
+    unfold dash_c_frontend, eval_delivery, eval_builtin, eval_line_delta, source_delivery, dot_builtin, script_frontend.
+    cbn [Nat.sub Nat.add].
     rewrite !parse_string_pure.
     split; [reflexivity|]. split; [reflexivity|]. split.
     - destruct (run_parsed (parse o (concat lines)) (concat lines) 0 st) as [st' fl]; reflexivity.
